@@ -142,7 +142,7 @@ func (p *Program) systemRoles() *sysRoles {
 		}
 	}
 	// the channel awaited by the stop routine in a select
-	for _, in := range p.ig(r.StopImpl).Nodes {
+	for _, in := range p.igx(r.StopImpl).Nodes { // the wait may be extracted into a helper of the stop routine
 		if sel, ok := in.(*ssa.Select); ok {
 			for _, st := range sel.States {
 				if f, _ := fieldLoad(st.Chan); f != nil && fieldVar(r.T, f.Name()) == f {
@@ -624,7 +624,7 @@ func c07Wiring(p *Program, r *Report) {
 		return
 	}
 	ctx := p.contextType()
-	g := p.ig(s.StopImpl)
+	g := p.igx(s.StopImpl) // helpers called once from the stop routine (an extracted wait) stay part of its paths
 	// Kill(root, poison=true)
 	kills := nodesWhere(g, func(in ssa.Instruction) bool {
 		c := callOf(in)
